@@ -5,6 +5,20 @@ from vmon.smiles_reader import (read_smiles, read_segmented, has_long_percent_ru
                                 SmilesSyntaxError, SegmentationBudget)
 
 
+def _needs_four_index_symbols(x):
+    i = x.find("Ring")
+    while i >= 0:
+        if x[i + 4:i + 5] in "456789":
+            return True
+        i = x.find("Ring", i + 4)
+    i = x.find("Branch")
+    while i >= 0:
+        if x[i + 6:i + 7] in "456789":
+            return True
+        i = x.find("Branch", i + 6)
+    return False
+
+
 def roundtrip(ctx, sf, s, table, check_stereo, src, payload_extra=None, _again=False):
     """Returns (status, min, mout, selfies).  status in:
     'ok', 'gen_bug', 'enc_reject', 'violation'.
@@ -43,6 +57,11 @@ def roundtrip(ctx, sf, s, table, check_stereo, src, payload_extra=None, _again=F
     for mon, msg in MON.drain():
         ctx.finding("monitor-" + mon, dict(payload, selfies=x[:2000]), msg)
     if d[0] != "ok":
+        if d[0] == "err" and _needs_four_index_symbols(x):
+            # ring span / branch length >= 16^3 symbols: outside the documented three-index-symbol limit (and outside
+            # the quantifier of C03 / C10); the encoder then writes [Ring4] / [Branch4], which the decoder refuses
+            ctx.count("beyond_three_index_symbols")
+            return "enc_reject", min_, None, None
         ctx.finding("decoder-rejects-encoder-output", dict(payload, selfies=x[:2000]), repr(d)[:300])
         return "violation", min_, None, x
     out = d[1]
